@@ -1057,6 +1057,12 @@ func (fv *FV) specCall(env *Env, c *SCall) Term {
 		need(3)
 		a := args()
 		return fv.ordTerm(a[0], a[1], a[2])
+	case "rank":
+		// rank(cmp, v): the integer rank whose comparison is ord(cmp, ·, ·)
+		need(2)
+		a := args()
+		fv.ordTerm(a[0], a[1], a[1]) // declares ord and its rank function for this sort
+		return Term{S: app("ordrank$"+cleanName(a[1].Sort), a[0].S, a[1].S), Sort: sInt, T: types.Typ[types.Int]}
 	case "holds":
 		need(2)
 		a := args()
